@@ -243,6 +243,35 @@ def run(ck, F, E):
         ck.require(len(muls) == 2, "C03:ARRAY:stride", "cell addressing", "linear += index * stride; stride *= size (first index fastest)",
                    "get_linear_index computes %s" % muls, gl.span, nontrivial=False)
 
+    # ---- DEF FN: dynamic parameter scoping searches the innermost frame first
+    fv = get_fn(ck, F, "Program::find_variable_value_in_stack")
+    if fv is not None:
+        names = [c.callee.split("::")[-1] for c in fv.calls()]
+        backwards = [c for c in fv.calls() if c.callee.split("::")[-1] in ("rev", "rfind", "rposition", "next_back", "rfold")
+                     and expr_has_field(fv.expr(c.args[0]), "stack")]
+        uses_has = bool(fv.calls_to("Variables::has")) or bool(fv.calls_to("Variables::get"))
+        ck.require(bool(backwards) and uses_has, "C03:SCOPE:innermost-first", "dynamic parameter scoping",
+                   "frames are searched from the top of the stack (%s)" % sorted({c.callee.split("::")[-1] for c in backwards}),
+                   "find_variable_value_in_stack no longer walks the frames innermost-first (calls: %s): a nested FN call sees an "
+                   "outer frame's binding of a same-named parameter" % names, fv.span)
+    et = get_fn(ck, F, "ExpressionEvaluator::evaluate_expression_term")
+    if et is not None:
+        fs = et.calls_to("Program::find_variable_value_in_stack")
+        vg = et.calls_to("Variables::get")
+        ok = len(fs) == 1 and bool(vg) and all(et.reaches(fs[0].bb, v.bb) for v in vg)
+        ck.require(ok, "C03:SCOPE:frames-before-globals", "dynamic parameter scoping",
+                   "a variable read consults the call frames before the global variables",
+                   "variable reads no longer look in the function-call frames first", et.span)
+    ud = get_fn(ck, F, "ExpressionEvaluator::evaluate_user_defined_function_call")
+    if ud is not None:
+        ps = ud.calls_to("Program::push_function_call_onto_stack_and_goto_it")
+        ok = len(ps) == 1 and ("with_capacity" in show(ud.expr(ps[0].args[2])) or "Variables" in ps[0].args[2]["place"].get("ty", ""))
+        sets = ud.calls_to("Variables::set")
+        ok = ok and len(sets) == 1 and any(ud.reaches(sets[0].bb, p.bb) for p in ps)
+        ck.require(ok, "C03:SCOPE:bindings-pushed", "dynamic parameter scoping",
+                   "evaluated arguments are bound in a fresh Variables that is pushed with the frame",
+                   "a FN call no longer pushes its evaluated argument bindings as the new frame", ud.span)
+
     # ---- (8)
     C06.resume_rule(ck, F, "C03")
 
